@@ -825,8 +825,9 @@ mod part_b {
             let live_end = emu.live().len();
             let xlog = emu.take_log();
             let unmapped_live = xlog.iter().filter(|x| matches!(x, XEv::Unmap { was_live: true, .. })).count();
-            if dropped.is_err() || live_while_held == 0 || live_after_region_drop == 0 || !data_ok || live_end != 0 || unmapped_live == 0 {
-                v("ondemand/guard-outlives-its-region/window-not-kept-or-not-released-through-the-device", jobj! {"dropping_the_guard_panicked" => dropped.is_err(), "grants_live_while_guard_held" => live_while_held, "grants_live_after_the_region_was_dropped" => live_after_region_drop, "bytes_readable_through_the_guard" => data_ok, "grants_live_after_guard_dropped" => live_end, "unmap_requests_for_live_grants" => unmapped_live});
+            let on_closed = xlog.iter().filter(|x| matches!(x, XEv::ClosedDescriptor { .. })).count();
+            if on_closed > 0 || dropped.is_err() || live_while_held == 0 || live_after_region_drop == 0 || !data_ok || live_end != 0 || unmapped_live == 0 {
+                v("ondemand/guard-outlives-its-region/window-not-kept-or-not-released-through-the-device", jobj! {"device_requests_on_a_closed_descriptor" => on_closed, "dropping_the_guard_panicked" => dropped.is_err(), "grants_live_while_guard_held" => live_while_held, "grants_live_after_the_region_was_dropped" => live_after_region_drop, "bytes_readable_through_the_guard" => data_ok, "grants_live_after_guard_dropped" => live_end, "unmap_requests_for_live_grants" => unmapped_live});
             }
             out::key(&format!("ondemand|guard-outlives|{}", if whole_memory { "guest-memory" } else { "region" }), true);
             out::eval(1);
